@@ -37,6 +37,10 @@ pub const fn panic_power_negative_base() -> ! {
 }
 
 /// Panics when taking an even order root of an negative number
+pub(crate) fn panic_log_nonpositive() -> ! {
+    panic!("the logarithm is only defined for positive numbers!")
+}
+
 pub(crate) fn panic_root_negative() -> ! {
     panic!("the root is a complex number!")
 }
